@@ -102,7 +102,54 @@ func (s *MultiEventSyncer) Sync(ctx context.Context, header *types.Header) error
 	return nil
 }
 
+// syncRange syncs the given block range. Events stored by one processor can change what another
+// processor has to look for in later blocks of the same range (a trigger registered in block b
+// must be matched against the logs of the blocks after b). As all processors fetch before any
+// processor stores, such a range is split behind the first block reported by a RangeSplitter, so
+// that those events are committed before the later blocks are examined.
 func (s *MultiEventSyncer) syncRange(ctx context.Context, start, end uint64) (int, error) {
+	numEvents := 0
+	for start <= end {
+		subEnd, err := s.firstSplitPoint(ctx, start, end)
+		if err != nil {
+			return numEvents, err
+		}
+		n, err := s.syncSubRange(ctx, start, subEnd)
+		numEvents += n
+		if err != nil {
+			return numEvents, err
+		}
+		start = subEnd + 1
+	}
+	return numEvents, nil
+}
+
+// firstSplitPoint returns the lowest block number in [start, end] at which a RangeSplitter
+// processor has an event, or end if there is none.
+func (s *MultiEventSyncer) firstSplitPoint(ctx context.Context, start, end uint64) (uint64, error) {
+	splitPoint := end
+	if start == end {
+		return splitPoint, nil
+	}
+	for name, processor := range s.Processors {
+		splitter, ok := processor.(RangeSplitter)
+		if !ok {
+			continue
+		}
+		events, err := processor.FetchEvents(ctx, start, end)
+		if err != nil {
+			return 0, errors.Wrapf(err, "failed to fetch events for processor %s in range [%d, %d]", name, start, end)
+		}
+		for _, blockNumber := range splitter.EventBlockNumbers(events) {
+			if blockNumber >= start && blockNumber < splitPoint {
+				splitPoint = blockNumber
+			}
+		}
+	}
+	return splitPoint, nil
+}
+
+func (s *MultiEventSyncer) syncSubRange(ctx context.Context, start, end uint64) (int, error) {
 	header, err := s.ExecutionClient.HeaderByNumber(ctx, new(big.Int).SetUint64(end))
 	if err != nil {
 		return 0, errors.Wrap(err, "failed to get execution block header")
